@@ -544,3 +544,71 @@ pub mod hash_map {
         }
     }
 }
+
+/// `std::collections::HashSet` over the same association list (a change under test may introduce one,
+/// e.g. a visited set; without a model the real set drags `getrandom` into the query).
+pub struct HashSet<K> {
+    map: HashMap<K, ()>,
+}
+
+impl<K> HashSet<K> {
+    pub fn new() -> Self {
+        HashSet { map: HashMap::new() }
+    }
+    pub fn with_capacity(_n: usize) -> Self {
+        Self::new()
+    }
+    pub fn len(&self) -> usize {
+        self.map.len()
+    }
+    pub fn is_empty(&self) -> bool {
+        self.map.is_empty()
+    }
+    pub fn clear(&mut self) {
+        self.map.clear()
+    }
+    pub fn iter(&self) -> hash_map::Keys<'_, K, ()> {
+        self.map.keys()
+    }
+}
+
+impl<K: Eq> HashSet<K> {
+    /// true when the value was not present yet
+    pub fn insert(&mut self, k: K) -> bool {
+        self.map.insert(k, ()).is_none()
+    }
+    pub fn contains<Q: ?Sized + Eq>(&self, k: &Q) -> bool
+    where
+        K: Borrow<Q>,
+    {
+        self.map.contains_key(k)
+    }
+    pub fn remove<Q: ?Sized + Eq>(&mut self, k: &Q) -> bool
+    where
+        K: Borrow<Q>,
+    {
+        self.map.remove(k).is_some()
+    }
+}
+
+impl<K> Default for HashSet<K> {
+    fn default() -> Self {
+        Self::new()
+    }
+}
+
+impl<K: core::fmt::Debug> core::fmt::Debug for HashSet<K> {
+    fn fmt(&self, f: &mut core::fmt::Formatter<'_>) -> core::fmt::Result {
+        f.write_str("HashSet")
+    }
+}
+
+impl<K: Eq> FromIterator<K> for HashSet<K> {
+    fn from_iter<T: IntoIterator<Item = K>>(iter: T) -> Self {
+        let mut s = Self::new();
+        for k in iter {
+            s.insert(k);
+        }
+        s
+    }
+}
